@@ -190,7 +190,7 @@ theorem frag_gsub3 (f : Font) (hf : FontOk f) (first : Bool) (cov : List Nat) (a
       SubStop anyTok Safe anyNext
       (fun t ht => ⟨by rcases ht with h | h | h <;> simp [h, tOr, tEOL, tEOF, tComma], trivial⟩)
       (fun t ht => trivial) (fun _ _ => trivial) trivial
-      (fun i line => ?_) rest [] p0 fuel hlenr ?_) ?_ (fun nx h => by simpa [nextRune, render] using h)
+      rest [] p0 fuel hlenr (fun i _ line => ?_) ?_) ?_ (fun nx h => by simpa [nextRune, render] using h)
         (fun line t ht => by simpa [mkToks] using ht)
     · obtain ⟨typ, val, hw, hty⟩ := writeGlyph_isTok (newExplainer f) i.1
       refine ⟨{ typ := typ, val := val, line := line }, by simp [pc, hw, mkToks], by simpa using hty⟩
